@@ -11,9 +11,11 @@ from fractions import Fraction
 import numpy as np
 from . import common
 
-# C05 <-> C06 bridge theorems and the extension-SDP formulation theorems import ent2's NumqiProofs/BoundaryLemmas.lean read-only
-BRIDGE = ['NumqiProofs/EntangleBridge.lean', 'NumqiProps/C05SymExt.lean']
-THEOREM_FILES = ['NumqiProps/C05.lean', 'NumqiProofs/DecisionC05.lean', 'NumqiProofs/EntangleAccept.lean'] + BRIDGE
+# EntangleBridge.lean and C05SymExt.lean import C06's NumqiProofs/BoundaryLemmas.lean read-only. They are listed obligations like the others:
+# if they do not build (whatever the cause) the proof is broken and the failing-input search runs - never a mere note.
+# DecisionC13.lean: the closed-form two-qubit measures of C05's statement (same constants, ops sent from this harness as well).
+THEOREM_FILES = ['NumqiProps/C05.lean', 'NumqiProps/C05SymExt.lean', 'NumqiProofs/DecisionC05.lean', 'NumqiProofs/EntangleAccept.lean',
+                 'NumqiProofs/EntangleBridge.lean', 'NumqiProofs/DecisionC13.lean']
 LEVEL = 'proof'
 RULE = ('correspondence ops: Gaussian-integer Hermitian matrices (random, diagonal, unit, sparse) for every dimension list in '
         '(2,2),(2,3),(3,2),(3,3),(2,4),(2,2,2),(2,3,2),(3,2,2),(2,2,2,2) through is_ppt / is_generalized_ppt / check_reduction_witness / '
@@ -255,24 +257,7 @@ def render_thresholds(T):
     return '\n'.join(L) + '\n'
 
 
-def _bridge_prerequisite(ctx):
-    """the bridge module depends on a file of another property (C06); if that file does not build at the moment (its owner is editing
-    it) the bridge obligations are left out of this run - with a note - instead of being blamed on C05"""
-    for f in BRIDGE:
-        if f not in THEOREM_FILES:
-            THEOREM_FILES.append(f)
-    ok, _ = common.lake_build(['NumqiProofs.BoundaryLemmas'])
-    if not ok:
-        for f in BRIDGE:
-            THEOREM_FILES.remove(f)
-        if ctx is not None:
-            ctx.note('NumqiProofs/BoundaryLemmas.lean (C06) does not build at the moment: the C05<->C06 bridge theorems (symExt_isSymExt, sep_subset_kext, '
-                     'ptB_models_agree) and the extension-SDP formulation theorems (NumqiProps/C05SymExt.lean) were not audited in this run')
-
-
 def translate(ctx):
-    if ctx is not None:
-        _bridge_prerequisite(ctx)
     T = extract_thresholds()
     txt = render_thresholds(T)
     os.makedirs(os.path.dirname(GEN), exist_ok=True)
@@ -720,6 +705,197 @@ def sx_ops(ctx, rng):
     return ops, impl
 
 
+# ---------------------------------------------------------------------------------------------------------------
+# irrep-block path of the extension SDPs (entangle/symext.py:66,135,186,298): index helpers and the reduced-state contraction.
+# Shared with C06: the ops are handled by lean/Driver/SymExtOps.lean (`Numqi.Driver.SymExtOps.handle?`).
+# ---------------------------------------------------------------------------------------------------------------
+def f2b(x):
+    import struct
+    return struct.unpack('<Q', struct.pack('<d', float(x)))[0]
+
+
+def bits_list(M):
+    return ';'.join(f'{f2b(v.real)},{f2b(v.imag)}' for v in np.asarray(M, dtype=np.complex128).reshape(-1))
+
+
+def parse_qi(s):
+    out = []
+    for t in s.split(';'):
+        a, b = t.split(',')
+        out.append(complex(float(Fraction(a)), float(Fraction(b))))
+    return np.array(out)
+
+
+class _FakeProblem:
+    """records the constraint list; nothing is solved"""
+    last = None
+    value = 0.0
+
+    def __init__(self, obj, cons):
+        self.cons = list(cons)
+        _FakeProblem.last = self
+
+    def solve(self, *a, **kw):
+        return 0.0
+
+
+def irrep_ops(ctx, rng):
+    """(op, implementation value, kind) with kind 'exact' (string equality) or 'qi' (exact rational model vs float, 1e-12)"""
+    import cvxpy, numqi
+    SX = numqi.entangle.symext
+    out = []
+    # (1) get_cvxpy_transpose0213_indexing
+    for (n0, n1, n2, n3) in [(2, 3, None, None), (3, 2, None, None), (2, 1, None, None), (2, 4, None, None), (3, 6, None, None), (2, 3, 4, 5), (1, 2, 3, 2)]:
+        def f():
+            r = SX.get_cvxpy_transpose0213_indexing(n0, n1) if n2 is None else SX.get_cvxpy_transpose0213_indexing(n0, n1, n2, n3)
+            return ','.join(str(int(v)) for v in r)
+        a2, a3 = (n0, n1) if n2 is None else (n2, n3)
+        out.append((f'C05 idx0213 {n0} {n1} {a2} {a3}', guarded(f), 'exact')); ctx.count('irrep-idx0213')
+    cases = [((2, 2), 2), ((2, 2), 3), ((2, 3), 2), ((3, 2), 2)] if ctx.quick() else [((2, 2), 2), ((2, 2), 3), ((2, 2), 4), ((2, 3), 2), ((3, 2), 2), ((3, 2), 3), ((3, 3), 2)]
+    for (dA, dB), kext in cases:
+        N = dA * dB
+        rho = np.asarray(numqi.random.rand_density_matrix(N, seed=rng), dtype=np.complex128)
+        L = (np.arange(N * N).reshape(N, N)).astype(np.complex128)         # labels r*N+c
+        def labels_of(R, src):
+            table = {complex(v): k for k, v in enumerate(np.asarray(src).reshape(-1))}
+            if len(table) != N * N:
+                return None
+            lab = [table.get(complex(v)) for v in np.asarray(R).reshape(-1)]
+            return None if any(x is None for x in lab) else ';'.join(f'{x},0' for x in lab)
+        # (2) realignment of the input state in is_ABk_symmetric_ext: the value handed to the cvxpy Parameter
+        for boson in (False, True):
+            params = []
+            real_param = cvxpy.Parameter
+            def rec_param(*a, **kw):
+                p_ = real_param(*a, **kw); params.append(p_); return p_
+            def f():
+                with patched(cvxpy, 'Parameter', rec_param), patched(cvxpy, 'Problem', _FakeProblem):
+                    r = SX.is_ABk_symmetric_ext(rho, (dA, dB), kext, use_boson=boson)
+                if r is not True and r is not np.True_:
+                    return f'verdict-with-finite-problem-value:{r}'
+                if len(params) != 1 or params[0].value is None or params[0].value.shape != (dA * dA, dB * dB):
+                    return 'parameter-shape'
+                lab = labels_of(params[0].value, rho)
+                return lab if lab is not None else 'parameter-is-not-a-rearrangement-of-rho'
+            out.append((f'C05 sxrealign {dA} {dB} {ents(L)}', guarded(f), 'exact')); ctx.count('irrep-sxrealign')
+        # (3) get_ABk_symmetric_extension_boundary: the direction handed to the Parameter and the right-hand side eye/N + beta*direction
+        beta0 = 0.75
+        params = []
+        real_param = cvxpy.Parameter
+        def rec_param2(*a, **kw):
+            p_ = real_param(*a, **kw); params.append(p_); return p_
+        def fake_var(shape=(), hermitian=False, **kw):
+            if shape == () or shape is None:
+                return cvxpy.Constant(beta0)
+            return cvxpy.Constant(np.zeros(shape if isinstance(shape, tuple) else (shape,), dtype=np.complex128))
+        def fb():
+            with patched(cvxpy, 'Parameter', rec_param2), patched(cvxpy, 'Problem', _FakeProblem), patched(cvxpy, 'Variable', fake_var):
+                b = SX.get_ABk_symmetric_extension_boundary(rho, (dA, dB), kext)
+            if float(b) != beta0:
+                return 'beta-not-returned'
+            R = np.asarray(params[0].value)
+            dm_norm = numqi.gellmann.dm_to_gellmann_norm(rho[np.newaxis])
+            hat = ((rho[np.newaxis] - np.eye(N) / N) / dm_norm.reshape(-1, 1, 1))[0]
+            lab = labels_of(R, hat)
+            sigma = np.asarray(_FakeProblem.last.cons[-1].args[1].value)
+            return lab, R, sigma
+        rb = guarded(fb)
+        if isinstance(rb, str):
+            out.append((f'C05 sxrealign {dA} {dB} {ents(L)}', rb, 'exact'))
+        else:
+            lab, R, sigma = rb
+            out.append((f'C05 sxrealign {dA} {dB} {ents(L)}', lab if lab is not None else 'direction-is-not-a-rearrangement-of-(rho-1/N)/norm', 'exact'))
+            out.append((f'C05 extray {dA} {dB} {f2b(beta0)} {bits_list(R)}', sigma.reshape(-1), 'qi'))
+        ctx.count('irrep-extray')
+        # (4) _ABk_symmetric_extension_setup: cvx_rdm, the trace constraint and (use_ppt) the partial transposes, variables := Gaussian integers
+        for boson, ppt in ((False, False), (True, False), (False, True)):
+            Ps = []
+            def fake_var2(shape=(), hermitian=False, **kw):
+                G = rand_gint_matrix(rng, shape[0], True)
+                Ps.append(G); return cvxpy.Constant(G)
+            def fr():
+                with patched(cvxpy, 'Variable', fake_var2):
+                    cvxP, cons, rdm = SX._ABk_symmetric_extension_setup(dA, dB, kext, boson, ppt)
+                coeff, mult = numqi.group.symext.get_symmetric_extension_irrep_coeff(dB, kext)
+                if boson:
+                    coeff, mult = coeff[:1], mult[:1]
+                if [c.shape[0] * dA for c in coeff] != [P.shape[0] for P in Ps]:
+                    return 'block-sizes'
+                npsd = len(Ps) * (2 if ppt else 1)
+                kinds = [type(c).__name__ for c in cons]
+                if kinds != ['PSD'] * npsd + ['Equality']:
+                    return f'constraint-structure:{kinds}'
+                blocks = '|'.join(f'{c.shape[0]}:{ents(P)}:{bits_list(c)}:{f2b(float(m))}' for P, c, m in zip(Ps, coeff, mult))
+                pts = [np.asarray(c.args[0].value) for c in cons[len(Ps):npsd]]
+                return blocks, np.asarray(rdm.value).reshape(-1), complex(np.asarray(cons[-1].args[0].value).reshape(-1)[0]), pts, [c.shape[0] for c in coeff]
+            rr = guarded(fr)
+            if isinstance(rr, str):
+                out.append((f'C05 irreprdm {dA} {dB} 1:0,0:0,0:0', rr, 'exact'))
+                continue
+            blocks, rdmv, trv, pts, xs = rr
+            out.append((f'C05 irreprdm {dA} {dB} {blocks}', (rdmv, trv), 'qi2')); ctx.count('irrep-rdm')
+            for P, pt, x in zip(Ps, pts, xs):
+                if x >= 2:
+                    out.append((f'C05 ptb {dA};{x} {ents(P)}', dump(pt), 'exact')); ctx.count('irrep-ppt')
+    return out
+
+
+def compare_irrep(ctx, items):
+    ops = [o for o, _, _ in items]
+    model = common.run_model(ops)
+    dev = 0.0
+    for (op, a, kd), b in zip(items, model):
+        ctx.count(op.split(' ')[1])
+        ok = False
+        if isinstance(a, str):
+            ok = (a == b)
+        elif b == 'bad-op':
+            ok = False
+        elif kd == 'qi':
+            mv = parse_qi(b)
+            d = float(np.abs(mv - a).max()) if mv.shape == a.shape else float('inf')
+            dev = max(dev, d); ok = d <= 1e-12
+        elif kd == 'qi2':
+            m1, m2 = b.split('#')
+            mv = parse_qi(m1); tv = parse_qi(m2)[0]
+            d = max(float(np.abs(mv - a[0]).max()) if mv.shape == a[0].shape else float('inf'), abs(tv - a[1]))
+            dev = max(dev, d); ok = d <= 1e-12 * max(1.0, float(np.abs(a[0]).max()))
+        if ok:
+            ctx.agree(op, op)
+        else:
+            ctx.disagree(op, b if len(b) < 300 else b[:300] + '…', a if isinstance(a, str) else repr(a)[:300])
+    ctx.extra['irrep_tie_max_deviation'] = dev
+
+
+def compare_measures(ctx):
+    """the closed-form two-qubit measures C05's statement leans on ("finite and equal to zero on separable states"), sent from this harness
+    too (the C05 driver delegates these ops to the C13 handler: same model constants, theorems in NumqiProofs/DecisionC13.lean which is in
+    THEOREM_FILES): scalar closed forms at structured concurrences, negativity read-out, Wootters read-out, and the compositions"""
+    import numqi
+    from . import c13
+    E = numqi.entangle
+    rng = np.random.default_rng(ctx.np_seed + 8)
+    items = c13.measure_ops(rng, ctx.quick(), 'C05')
+    for c in c13.structured_concurrences(rng, 20 if ctx.quick() else 200):
+        for name, f in (('eof', E.get_eof_2qubit), ('gme', E.get_gme_2qubit)):
+            with c13.stub_concurrence(c), np.errstate(all='ignore'):
+                r = guarded(lambda: float(f(np.eye(4) / 4)))
+            items.append((f'C05 {name} {f2b(c)}', r))
+    for ev in [[0, 0, 0, 0], [0, 0, 0, 1], [1e-18, 1e-17, 1e-17, 2e-17], [0.0625] * 4] + [sorted((rng.dirichlet(np.ones(4)) ** 2).tolist()) for _ in range(10)]:
+        items.append(('C05 wread ' + ';'.join(str(f2b(x)) for x in ev), c13.read_with_spectrum(ev, lambda: E.get_concurrence_2qubit(np.eye(4) / 4))))
+    model = common.run_model([o for o, _ in items])
+    dev = 0.0
+    for (op, a), b in zip(items, model):
+        ctx.count('measure-' + op.split(' ')[1])
+        ok, d = (False, 0.0) if b == 'bad-op' else c13.float_agree(a, b, abs_tol=1e-15 if op.split(' ')[1] == 'negread' else 0.0)
+        dev = max(dev, d)
+        if ok:
+            ctx.agree(op, op)
+        else:
+            ctx.disagree(op, b, repr(a))
+    ctx.extra['measure_tie_max_rel_deviation'] = dev
+
+
 def correspondence(ctx):
     T = extract_thresholds()
     ops = gen_ops(ctx)
@@ -742,6 +918,8 @@ def correspondence(ctx):
         off = [x for i, x in enumerate(e) if i % (N + 1) != 0]
         return any(x not in ('0,0', '0/1') for x in off) or len(set(e[:: N + 1])) > 1
     common.compare(ctx, ops, impl, model, nontrivial=nontrivial)
+    compare_irrep(ctx, irrep_ops(ctx, np.random.default_rng(ctx.np_seed + 6)))
+    compare_measures(ctx)
     ctx.extra['exhaustive'] = True
     ctx.extra['exhaustive_domain'] = ('every single-entry matrix (all index pairs) of the systems with N<=6 through is_ppt / is_generalized_ppt / '
                                       'check_reduction_witness; the complete _is_generalized_ppt_dim_list for 2..4 parties' + ('' if ctx.quick() else ' (2..5, N<=9 in thorough)'))
@@ -1232,6 +1410,42 @@ def probe(ctx):
                 ctx.fail('is_ABk_symmetric_ext:naive-vs-irrep', f'naive SDP says {r1}, irrep-block SDP says {r2} (kext={kext}, dim={dim}) [{tag}]', rp)
             else:
                 ctx.probe_ok(('naive-vs-irrep', dim, kext, tag))
+    # the forms of `dim` that hf_tuple_of_int accepts (tuple / list / ndarray / numpy integers), hermitian_eps of is_positive_semi_definite
+    for dim in ((2, 2), (2, 3), (2, 2, 2)):
+        rho, dsc = make_separable(rng, dim, 3, 'complex')
+        for label, dv in (('list', list(dim)), ('ndarray', np.array(dim)), ('np.int64', tuple(np.int64(x) for x in dim)), ('int32 array', np.array(dim, dtype=np.int32))):
+            ctx.count('probe-dim-forms')
+            for name in ('is_ppt', 'check_reduction_witness', 'is_generalized_ppt'):
+                r = guarded(lambda: bool(getattr(numqi.entangle, name)(rho, dv)))
+                if r is not True:
+                    ctx.fail(f'{name}:dim-form', f'{name} returned {r} for a separable state when dim is given as {label} {dv!r} (tuple form accepted)', dict(dsc, dim_form=label))
+                else:
+                    ctx.probe_ok((name, label, dim))
+        for he in (1e-8, 1e-12):
+            r = guarded(lambda: bool(numqi.utils.is_positive_semi_definite(rho, shift=1e-7, hermitian_eps=he)))
+            if r is not True:
+                ctx.fail('is_positive_semi_definite:hermitian_eps', f'is_positive_semi_definite(separable rho, shift=1e-7, hermitian_eps={he}) returned {r}', dict(dsc, hermitian_eps=he))
+            else:
+                ctx.probe_ok(('psd-hermitian-eps', dim, he))
+    # batched input / return_info of is_ABk_symmetric_ext: list and 3-d array of states = item by item
+    def batched():
+        d2 = (2, 2)
+        sts = [make_separable(rng, d2, 2, 'complex')[0], make_separable(rng, d2, 4, 'real')[0], np.asarray(numqi.state.Werner(2, 1.0), dtype=np.complex128)]
+        single = [bool(numqi.entangle.is_ABk_symmetric_ext(x, d2, 2)) for x in sts]
+        arr = numqi.entangle.is_ABk_symmetric_ext(np.stack(sts), d2, 2)
+        lst = numqi.entangle.is_ABk_symmetric_ext(list(sts), d2, 2)
+        info = numqi.entangle.is_ABk_symmetric_ext(sts[0], d2, 2, return_info=True)
+        rp = dict(dim=[2, 2], kext=2, states=[rho_desc(x, d2, 'batched')['rho'] for x in sts])
+        if single[:2] != [True, True] or single[2] is not False:
+            ctx.fail('is_ABk_symmetric_ext:batched', f'item-by-item verdicts {single} for (separable, separable, Werner(2,1))', rp)
+        elif [bool(x) for x in np.asarray(arr).reshape(-1)] != single or [bool(x) for x in np.asarray(lst).reshape(-1)] != single:
+            ctx.fail('is_ABk_symmetric_ext:batched', f'batched verdicts {list(np.asarray(arr))} / {list(np.asarray(lst))} differ from the item-by-item verdicts {single}', rp)
+        elif not (isinstance(info, tuple) and bool(info[0]) is True and info[1] is not None):
+            ctx.fail('is_ABk_symmetric_ext:return_info', f'return_info=True returned {str(info)[:100]} for a separable state', rp)
+        else:
+            ctx.probe_ok(('symext-batched',))
+    ctx.count('probe-symext-batched')
+    safely(ctx, 'is_ABk_symmetric_ext:batched:raises', dict(dim=[2, 2], kext=2), batched)
     # histories on the SDP-backed path (shared set-up helper / caches): numerical range, boundary and other option tuples in between
     opt = lambda k, b, p_: (k, b, p_)
     hist_plan = [((2, 2), 2, False, False, [('numerical_range', opt(2, False, False)), ('boundary', opt(2, False, False)), ('numerical_range', opt(2, True, False))])]
